@@ -925,6 +925,9 @@ func gen(r *hx.Rand, n int, tier string, emit func(string), st *hx.Stats) {
 				ni := c.Intn(7)
 				if c.Chance(1, 10) {
 					ni = 0
+					if c.Chance(3, 4) {
+						def = top
+					}
 				}
 				var items []string
 				for j := 0; j < ni; j++ {
